@@ -121,10 +121,11 @@ impl Link {
         self.ops.last()
     }
 
-    /// True when a line without code (REM, DATA) follows the last opcode.
-    pub fn has_line_at_end(&self) -> bool {
+    /// True when a label resolves to the address just past the last opcode: a line
+    /// without code (REM, DATA) or the exit of an IF whose branch ends the program.
+    pub fn has_label_at_end(&self) -> bool {
         let end = self.ops.len();
-        self.symbols.range(0..).any(|(_, (addr, _))| *addr == end)
+        self.symbols.values().any(|(addr, _)| *addr == end)
     }
 
     pub fn drain<R>(&mut self, range: R) -> std::vec::Drain<'_, Opcode>
